@@ -87,6 +87,13 @@ def emit_all(w, tn, rnd, private, account, s, e):
                 out["default_xprv:" + key] = node.extended_private_key()
                 out["wif:" + key] = node.private_key.wif(testnet=w.testnet)
             out["group:" + key] = [r[1:] for r in w.group(nodes=[node], addr_fnc=w.p2sh_p2wpkh_address)]
+            # the same key as a node object the CALLER parsed - with the other network's flag, or without telling the parser
+            # anything: rows the WALLET makes of it carry the wallet's network
+            from btc_hd_wallet.bip32 import PrvKeyNode, PubKeyNode
+            for flavour, kw in (("flag-flipped", {"testnet": not w.testnet}), ("flag-default", {})):
+                foreign = PrvKeyNode.parse(node.extended_private_key(), **kw) if private else PubKeyNode.parse(node.extended_public_key(), **kw)
+                out["group_foreign_node_%s:%s" % (flavour, key)] = [r[1:] for r in w.group(nodes=[foreign], addr_fnc=w.p2wpkh_address)] + \
+                    [getattr(w, k + "_address")(foreign) for k in KINDS]
         return run
     for p in paths:
         jobs.append(path_job(p))
